@@ -664,10 +664,28 @@ impl<'a> G<'a> {
                 out.push(Sel::Field { alias: Some("second".into()), name: "names".into(), args: vec![], dirs: vec![], sels: vec![] });
             }
             if self.want("sub_typename") {
+                // `__typename` at the subscription root, in every way it can get there: alone, beside a
+                // real field, aliased, through an inline fragment without / with type condition, through a
+                // named fragment on the root type — and each of these alone or beside the real field
+                let tn = |alias: Option<&str>| Sel::Field { alias: alias.map(|a| a.to_string()), name: "__typename".into(), args: vec![], dirs: vec![], sels: vec![] };
+                let root = ty.to_string();
+                let sel = match self.rng.below(6) {
+                    0 | 1 => tn(None),
+                    2 => tn(Some("t")),
+                    3 => Sel::Inline { cond: None, dirs: vec![], sels: vec![tn(None)] },
+                    4 => Sel::Inline { cond: Some(root), dirs: vec![], sels: vec![tn(None)] },
+                    _ => {
+                        let name = self.fresh("F");
+                        self.frags.push(Frag { name: name.clone(), cond: root, dirs: vec![], sels: vec![tn(if self.rng.chance(1, 3) { Some("t") } else { None })] });
+                        Sel::Spread { name, dirs: vec![] }
+                    }
+                };
                 if self.rng.chance(1, 2) {
-                    out = vec![Sel::Field { alias: None, name: "__typename".into(), args: vec![], dirs: vec![], sels: vec![] }];
+                    out = vec![sel];
+                } else if self.rng.chance(1, 2) {
+                    out.push(sel);
                 } else {
-                    out.push(Sel::Field { alias: None, name: "__typename".into(), args: vec![], dirs: vec![], sels: vec![] });
+                    out.insert(0, sel);
                 }
             }
             return out;
@@ -907,12 +925,26 @@ fn gen_op(sd: &SchemaD, rng: &mut Rng, opty: &str, name: Option<String>, mutatio
     (Op { ty: opty.into(), name, vars: g.vars, dirs, sels }, g.frags, g.supplied, applied)
 }
 
-/// `sd_plain` / `sd_ifdef`: the two schema variants; the last component of the result says which one was used
-fn gen_request(sd_plain: &SchemaD, sd_ifdef: &SchemaD, rng: &mut Rng, _i: usize, dist: &mut Dist) -> (Doc, Option<String>, Vec<(String, V)>, bool) {
+/// `sds`: the schema variants — static flavour: [plain, with the `ifdef` directive, merged roots], dynamic
+/// flavour: the one schema; the last component of the result is the index of the variant used
+fn gen_request(sds: &[&SchemaD], rng: &mut Rng, _i: usize, dist: &mut Dist) -> (Doc, Option<String>, Vec<(String, V)>, usize) {
     let mutation: &'static str = *rng.pick(MUTS);
-    let variant = if mutation == "unknown_field_ifdef" { rng.chance(3, 4) } else { rng.chance(1, 8) };
-    let sd = if variant { sd_ifdef } else { sd_plain };
-    dist.hit(if variant { "gen_schema_with_ifdef_directive" } else { "gen_schema_plain" });
+    let variant: usize = if sds.len() < 3 {
+        0
+    } else if mutation == "unknown_field_ifdef" {
+        if rng.chance(3, 4) { 1 } else if rng.chance(1, 2) { 2 } else { 0 }
+    } else if mutation.starts_with("sub_") {
+        // the subscription-root rules: half of the cases against the merged subscription root
+        if rng.chance(1, 2) { 2 } else if rng.chance(1, 8) { 1 } else { 0 }
+    } else {
+        match rng.below(8) {
+            0 => 1,
+            1 | 2 => 2,
+            _ => 0,
+        }
+    };
+    let sd = sds[variant];
+    dist.hit(["gen_schema_plain", "gen_schema_with_ifdef_directive", "gen_schema_merged_roots"][variant]);
     let opty = match rng.below(8) {
         0 => "mutation",
         1 => "subscription",
